@@ -155,7 +155,24 @@ impl Database {
         if self.root.uuid == other.root.uuid {
             log.append(&self.root.merge_with(&other.root)?);
         }
-        log.append(&self.merge_group(vec![], &other.root, false)?);
+        // A group move is refused while it would put the group below itself, which can stop being the case once a
+        // later move of the same pass has been applied. Repeat the pass until it changes nothing, so that merging the
+        // same database again is a no-op. Only a move that was refused before can make a further pass do anything, and
+        // every group moves at most once, so the number of groups bounds the number of passes.
+        let max_passes = other.root.iter().filter(|n| matches!(n, NodeRef::Group(_))).count() + 1;
+        for _ in 0..max_passes {
+            let pass = self.merge_group(vec![], &other.root, false)?;
+            let changed = !pass.events.is_empty();
+            for warning in pass.warnings {
+                if !log.warnings.contains(&warning) {
+                    log.warnings.push(warning);
+                }
+            }
+            log.events.extend(pass.events);
+            if !changed {
+                break;
+            }
+        }
         log.append(&self.merge_deletions(&other)?);
         Ok(log)
     }
